@@ -1,5 +1,3 @@
-//go:build verif_nns
-
 package harness
 
 import (
